@@ -547,6 +547,14 @@ fn check(args: &[String]) -> i32 {
             if let Some(o) = e.as_object_mut() {
                 o.insert("known_findings_reproduced".into(), json!(known_hit.iter().collect::<Vec<_>>()));
                 o.insert("worker_processes".into(), json!(jobs));
+                // result of the last determinism self-test for this property, if any
+                if let Ok(t) = std::fs::read_to_string(format!("{}/selftest/determinism.json", verif_dir())) {
+                    if let Ok(v) = serde_json::from_str::<Value>(&t) {
+                        if let Some(r) = v["results"].as_array().and_then(|a| a.iter().find(|x| x["property"] == json!(id))) {
+                            o.insert("determinism_selftest".into(), json!({"same_seeds_in_two_process_pools": r, "pools": [v["pool_a"], v["pool_b"]]}));
+                        }
+                    }
+                }
                 o.insert("repo_tree".into(), json!(repo_tree_hash()));
             }
             e
